@@ -33,6 +33,9 @@ pub enum Action {
     RawStyle { style: usize, body: usize },
     /// the request is dropped: automatic 500
     Drop,
+    /// `upgrade()` answered 101, then `n` marker bytes written to the stream, flushed, stream
+    /// dropped (only as the last request of a connection: the stream is the application's then)
+    Upgrade(usize),
 }
 
 impl Action {
@@ -43,11 +46,15 @@ impl Action {
             Action::Raw { writes, body, flush } => format!("raw{}x{}{}", writes, body, if *flush { "f" } else { "" }),
             Action::RawStyle { style, body } => format!("raw{}{}", if *style == 1 { "v" } else { "w" }, body),
             Action::Drop => "drop".into(),
+            Action::Upgrade(n) => format!("upgrade{}", n),
         }
     }
     fn from_label(s: &str) -> Action {
         if s == "drop" {
             return Action::Drop;
+        }
+        if let Some(n) = s.strip_prefix("upgrade") {
+            return Action::Upgrade(n.parse().unwrap_or(10));
         }
         if let Some(n) = s.strip_prefix("respond") {
             return Action::Respond(n.parse().unwrap_or(10));
@@ -86,6 +93,8 @@ impl Action {
                 Finish::Writer { parts, flush: false }
             }
             Action::Drop => Finish::Drop,
+            // srv_body runs upgrades itself (Finish::Upgrade reads until the client half-closes)
+            Action::Upgrade(_) => Finish::Drop,
         };
         ReqPlan { read: ReadPlan::None, finish }
     }
@@ -96,7 +105,13 @@ impl Action {
             Action::Raw { writes: 0, .. } => None,
             Action::Raw { .. } | Action::RawStyle { .. } => Some((200, Some(id))),
             Action::Drop => Some((500, None)),
+            Action::Upgrade(_) => Some((101, Some(id))),
         }
+    }
+    fn upgrade_marker(id: usize, n: usize) -> Vec<u8> {
+        let mut m = format!("UPG{}:", id).into_bytes();
+        m.extend_from_slice(&body_for(id, n));
+        m
     }
 }
 
@@ -153,6 +168,18 @@ pub struct SrvObs {
     pub observed: bool,
 }
 
+fn run_handler(rq: tiny_http::Request, i: usize, act: &Action, plan: &ReqPlan, sh: &SharedObs) {
+    if let Action::Upgrade(n) = act {
+        let resp = tiny_http::Response::empty(101).with_header(tiny_http::Header::from_bytes(&b"X-Id"[..], i.to_string().as_bytes()).unwrap());
+        let mut s = rq.upgrade("verif", resp);
+        let _ = s.write_all(&Action::upgrade_marker(i, *n));
+        let _ = s.flush();
+        drop(s);
+        return;
+    }
+    handle_request(rq, i, plan, sh)
+}
+
 pub fn srv_body(sc: SrvScenario, obs: Arc<Mutex<SrvObs>>) {
     ctl::window(false);
     let n = sc.actions.len();
@@ -181,7 +208,8 @@ pub fn srv_body(sc: SrvScenario, obs: Arc<Mutex<SrvObs>>) {
         let rq = rqs[i].take().unwrap();
         let plan = sc.actions[i].to_plan(i);
         let sh = shared.clone();
-        hs.push(thread::spawn_named(Some(format!("handler{}", i)), move || handle_request(rq, i, &plan, &sh)));
+        let act = sc.actions[i].clone();
+        hs.push(thread::spawn_named(Some(format!("handler{}", i)), move || run_handler(rq, i, &act, &plan, &sh)));
         if sc.order.is_some() {
             // forced order: this handler runs until it finishes or has to wait for its turn
             ctl::settle();
@@ -193,7 +221,8 @@ pub fn srv_body(sc: SrvScenario, obs: Arc<Mutex<SrvObs>>) {
         let rq = srv.server.recv().expect("recv late");
         let plan = sc.actions[i].to_plan(i);
         let sh = shared.clone();
-        hs.push(thread::spawn_named(Some(format!("handler{}", i)), move || handle_request(rq, i, &plan, &sh)));
+        let act = sc.actions[i].clone();
+        hs.push(thread::spawn_named(Some(format!("handler{}", i)), move || run_handler(rq, i, &act, &plan, &sh)));
     }
     for h in hs {
         let _ = h.join();
@@ -240,6 +269,16 @@ fn judge_stream(actions: &[Action], received: &[u8]) -> Vec<(String, String)> {
         if let Some(id) = m.header("X-Id").and_then(|v| v.parse::<usize>().ok()) {
             if m.status == 200 && m.body != body_for(id, m.body.len()) {
                 f.push(("interleaved-or-truncated".into(), format!("body of response {} contains foreign bytes: `{}`", id, esc_short(&m.body, 80))));
+            }
+            if m.status == 101 {
+                if let Some(Action::Upgrade(n)) = actions.get(id) {
+                    if m.after_upgrade != Action::upgrade_marker(id, *n) {
+                        f.push((
+                            "interleaved-or-truncated".into(),
+                            format!("after the 101 of request {} the client got `{}`, the application wrote `{}` to the upgraded stream", id, esc_short(&m.after_upgrade, 80), esc_short(&Action::upgrade_marker(id, *n), 80)),
+                        ));
+                    }
+                }
             }
         }
     }
@@ -331,6 +370,12 @@ pub fn seam_body(sc: SeamScenario, obs: Arc<Mutex<SeamObs>>) {
                             }
                         }
                     }
+                }
+                Action::Upgrade(n) => {
+                    let _ = w.write_all(format!("HTTP/1.1 101 Switching Protocols\r\nX-Id: {}\r\nUpgrade: verif\r\nConnection: upgrade\r\n\r\n", i).as_bytes());
+                    let _ = w.flush();
+                    let _ = w.write_all(&Action::upgrade_marker(i, n));
+                    let _ = w.flush();
                 }
                 Action::Drop => {
                     let _ = w.write_all(b"HTTP/1.1 500 Internal Server Error\r\nContent-Length: 0\r\n\r\n");
@@ -430,6 +475,27 @@ fn items(tier: Tier) -> &'static Vec<Item> {
                         v.push(Item::Seam(SeamScenario { actions: prog.clone() }, Some(1)));
                     }
                 }
+            }
+        }
+        // an upgrade as the last request of the connection, earlier responses still pending
+        for up in [Action::Upgrade(10), Action::Upgrade(1500)] {
+            for a in &acts {
+                let prog = vec![a.clone(), up.clone()];
+                for p in permutations(2) {
+                    v.push(Item::Srv(SrvScenario { actions: prog.clone(), order: Some(p), late_last: false }, 0));
+                }
+                v.push(Item::Srv(SrvScenario { actions: prog.clone(), order: None, late_last: false }, 2));
+                v.push(Item::Srv(SrvScenario { actions: prog.clone(), order: None, late_last: true }, 1));
+                v.push(Item::Seam(SeamScenario { actions: prog.clone() }, None));
+            }
+        }
+        for a in &acts3 {
+            for b in &acts3 {
+                let prog = vec![a.clone(), b.clone(), Action::Upgrade(10)];
+                for p in permutations(3) {
+                    v.push(Item::Srv(SrvScenario { actions: prog.clone(), order: Some(p), late_last: false }, 0));
+                }
+                v.push(Item::Srv(SrvScenario { actions: prog.clone(), order: None, late_last: false }, 1));
             }
         }
         if thorough {
@@ -542,7 +608,7 @@ impl Check for C01 {
     }
     fn rule(&self, tier: Tier) -> String {
         format!(
-            "answer actions {:?} (rawv / raww = a raw response written through write_vectored / through plain write() calls of at most 64 bytes instead of write_all); n=2: every program, handler threads started in both forced orders (bound 0), all at once (strict bound 2), with the second request sent while the first handler already runs (connection thread parsing concurrently, bound 1), and at the SequentialWriter seam (ALL interleavings, unbounded); n=3: every program over 6 actions with all 6 forced orders, racing at strict bound 1{}; pipelines of 65 and 130 (thorough: 16, 65, 130, 300, 1030) requests with three programs (all respond / respond, unused writer, drop, two-part writer in turn / one respond followed by unused writers) answered in reverse, rotated and odd-then-even order at the default schedule; {} scenarios; oracle: the client stream parses into complete messages whose (status, request id) sequence is the request order (writers that emit nothing are skipped, a dropped request shows as 500), bodies carry their own request id, no hang; non-trivial = all",
+            "answer actions {:?} (rawv / raww = a raw response written through write_vectored / through plain write() calls of at most 64 bytes instead of write_all); n=2: every program, handler threads started in both forced orders (bound 0), all at once (strict bound 2), with the second request sent while the first handler already runs (connection thread parsing concurrently, bound 1), and at the SequentialWriter seam (ALL interleavings, unbounded); n=3: every program over 6 actions with all 6 forced orders, racing at strict bound 1{}; an upgrade() as the LAST request (101, then 10 or 1500 marker bytes written to the upgraded stream, flushed, dropped) after every action (n=2: both forced orders, racing at bound 2, late second request, seam) and after every pair of actions (n=3: 6 forced orders, racing at bound 1): the 101 and the stream bytes come after the earlier responses and the stream bytes arrive exactly as written; pipelines of 65 and 130 (thorough: 16, 65, 130, 300, 1030) requests with three programs (all respond / respond, unused writer, drop, two-part writer in turn / one respond followed by unused writers) answered in reverse, rotated and odd-then-even order at the default schedule; {} scenarios; oracle: the client stream parses into complete messages whose (status, request id) sequence is the request order (writers that emit nothing are skipped, a dropped request shows as 500), bodies carry their own request id, no hang; non-trivial = all",
             actions(tier).iter().map(|a| a.label()).collect::<Vec<_>>(),
             if tier == Tier::Thorough { " and at the seam at chess bound 2, plus chess bound 3 at the seam for the 27 programs over {respond, raw writer in two flushed parts, unused raw writer}; n=4: 4 actions, all 24 forced orders" } else { " and at the seam at chess bound 1; n=4: 3 actions (respond, unused raw writer, drop), all 24 forced orders" },
             items(tier).len()
